@@ -754,6 +754,23 @@ impl Gen {
         let name = self.pick_tname();
         let after_n = self.r.range(0, 25);
         let fill = self.r.chance(2, 3);
+        // the double-ended extract iterators are driven from the front, from the back, or alternating: the
+        // predicate runs (and may panic) under next() as well as under next_back()
+        let dir = self.r.below(3);
+        fn drive<T, E: Into<redb::Error>>(mut it: impl DoubleEndedIterator<Item = Result<T, E>>, dir: u64) -> Result<(), redb::Error> {
+            let mut i = 0u64;
+            loop {
+                let e = match dir {
+                    0 => it.next(),
+                    1 => it.next_back(),
+                    _ => { i += 1; if i % 2 == 0 { it.next() } else { it.next_back() } }
+                };
+                match e {
+                    None => return Ok(()),
+                    Some(r) => { r.map_err(Into::into)?; }
+                }
+            }
+        }
         let t = self.w.wtx.as_ref().unwrap();
         let mut label = String::new();
         let mut mid: Option<Box<VTxnSnapshot>> = None;
@@ -786,7 +803,7 @@ impl Gen {
                     k % 2 == 0
                 })?;
             } else if which < 85 {
-                label = format!("extract_if-panic {name} after={after_n} fill={}", u8::from(fill));
+                label = format!("extract_if-panic {name} after={after_n} fill={} dir={dir}", u8::from(fill));
                 let it = tab.extract_if(|k, _| {
                     seen += 1;
                     if seen > after_n {
@@ -794,11 +811,9 @@ impl Gen {
                     }
                     k % 2 == 1
                 })?;
-                for e in it {
-                    e?;
-                }
+                drive(it, dir)?;
             } else {
-                label = format!("extract_from_if-panic {name} after={after_n} fill={}", u8::from(fill));
+                label = format!("extract_from_if-panic {name} after={after_n} fill={} dir={dir}", u8::from(fill));
                 let it = tab.extract_from_if(7u64.., |k, _| {
                     seen += 1;
                     if seen > after_n {
@@ -806,9 +821,7 @@ impl Gen {
                     }
                     k % 2 == 1
                 })?;
-                for e in it {
-                    e?;
-                }
+                drive(it, dir)?;
             }
             Ok(())
         });
